@@ -19,6 +19,8 @@ ENOSPC, EIO, EMFILE, ENOMEM, EAGAIN = 28, 5, 24, 12, 11
 QUICK = [  # kind, profile, cases
     ("gen-packfile", {"nfiles": 4, "ndirs": 2, "bs": 4096}, 3),
     ("gen-packfile", {"nfiles": 3, "ndirs": 1, "xattrs": True, "hardlinks": True, "bs": 4096, "jobs": 2}, 2),
+    # tables that fill whole 8 KiB metadata blocks (> 1024 inodes with -e): a failing write of a *full* table block, not only of the tail
+    ("gen-packfile", {"nfiles": 2, "ndirs": 1, "bigdir": 1100, "bigdir_dense": True, "exportable": True, "notail": False, "bs": 4096, "jobs": 1}, 1),
     ("gen-packdir", {"nfiles": 4, "ndirs": 2, "xattrs": True, "hardlinks": True, "bs": 4096}, 3),
     ("tar2sqfs", {"nfiles": 4, "ndirs": 1, "bs": 4096}, 3),
     ("tar2sqfs", {"nfiles": 3, "ndirs": 1, "wrap": "gzip", "bs": 4096}, 1),
